@@ -56,6 +56,15 @@ def tearable(mt):
     for f, g, _ in stores:
         if (f, g) not in (("secs", "as_secs"), ("nanos", "subsec_nanos")):
             raise Refuse("monotonic_time.rs: store of %s takes %s()" % (f, g))
+    # nothing but these statements: a store under a condition, an extra statement, a different constructor are refused
+    sb_n = "".join(sb.split())
+    want_s = "".join("self.%s.store(value.%s(),Ordering::%s);" % (f, g, o) for f, g, o in stores)
+    if sb_n != want_s:
+        raise Refuse("monotonic_time.rs: tearable_store is not exactly two unconditional field stores: %r" % sb_n[:200])
+    lb_n = "".join(lb.split())
+    want_l = "MonotonicTime::new(" + ",".join("self.%s.load(Ordering::%s)" % (f, o) for f, o in loads)
+    if not (lb_n == want_l + ",).unwrap()" or lb_n == want_l + ").unwrap()"):
+        raise Refuse("monotonic_time.rs: tearable_load is not MonotonicTime::new(<two field loads>).unwrap(): %r" % lb_n[:200])
     L = {"secs": "LSec", "nanos": "LNan"}
     R = {"secs": "R1", "nanos": "R2"}
     E = {"secs": "EArgA", "nanos": "EArgB"}
